@@ -185,7 +185,7 @@ type vCorpusDoc struct {
 }
 
 var (
-	vStepIDs, vStepOps, vStepTexts, vStepQueries = 2, 3, 3, 2
+	vStepIDs, vStepOps, vStepTexts, vStepQueries = 2, 4, 3, 2
 	vStepFilter                                  = false
 )
 
@@ -391,6 +391,16 @@ func H_C03_tokens() {
 	vAssert(eq(tokenize(normalize("ﬁne")), "fine"), "tokens-nfkc-ligature")
 	vAssert(eq(tokenize(normalize(""))), "tokens-empty")
 	vAssert(eq(tokenize(normalize("naïve CAFÉ")), "naïve", " ", "café"), "tokens-non-ascii-lowercase")
+	// compatibility characters without a lower-case form whose NFKC expansion is upper-case
+	vAssert(eq(tokenize(normalize("℡")), "tel"), "tokens-nfkc-then-lowercase")
+	vAssert(eq(tokenize(normalize("™ №")), "tm", " ", "no"), "tokens-nfkc-then-lowercase")
+	vAssert(eq(tokenize(normalize("㎒")), "mhz"), "tokens-nfkc-then-lowercase")
+	ix := NewBM25SearchIndex()
+	vAssert(ix.Add(7, "call ℡ now") == nil && ix.Add(8, "other") == nil, "add-ok")
+	r, err := ix.NewSearch().WithQuery("tel").WithK(0).Execute()
+	vAssert(err == nil && len(r) == 1 && r[0].Id == 7, "plain-query-finds-compatibility-character")
+	r, err = ix.NewSearch().WithQuery("TEL").WithK(0).Execute()
+	vAssert(err == nil && len(r) == 1 && r[0].Id == 7, "plain-query-finds-compatibility-character")
 	vCover("ran")
 }
 
@@ -404,7 +414,8 @@ func H_C03_multi() {
 		corpus[id] = &vCorpusDoc{toks: tokenize(normalize(text))}
 	}
 	agg := vAggKinds[vChoose("agg", 3)]
-	q1, q2 := "fox", "dog"
+	q1 := "fox"
+	q2 := []string{"dog", "fox"}[vChoose("second_query", 2)] // the same query string twice counts twice
 	// (per-query lists are themselves cut to k, so the rule is stated for k covering every match: ties at a per-query k-th place are outside)
 	k := []int{0, 10, -1}[vChoose("k", 3)]
 	res, err := ix.NewSearch().WithQuery(q1, q2).WithK(k).WithScoreAggregation(agg).Execute()
